@@ -23,6 +23,8 @@ type Verdict struct {
 	Output  string
 	Hash    string
 	Model   string
+	OwnSecs float64 // time of the deciding query alone
+	FullCtx bool    // the sliced query did not decide it
 }
 
 type solverCfg struct {
